@@ -364,6 +364,11 @@ def optMin : Option Nat → Option Nat → Option Nat
   | a, none => a
   | some a, some b => some (min a b)
 
+/-- where the value of a server variable ends: at the next occurrence of the pattern character that follows the variable
+    or at the next '/', whichever comes first; at the end of the input if neither occurs -/
+def varEnd (pat' input : Str) : Nat :=
+  (optMin (match pat' with | [] => none | d :: _ => indexOf d input) (indexOf '/' input)).getD input.length
+
 /-- Server.MatchRawURL -/
 def matchRawURL : Nat → Str → Str → List Str → Option (List Str × Str)
   | 0, _, _, _ => none
@@ -379,10 +384,7 @@ def matchRawURL : Nat → Str → Str → List Str → Option (List Str × Str)
         match takeBrace prest with
         | none => none
         | some (_, pat') =>
-          let np := match pat' with | [] => none | d :: _ => indexOf d input
-          let ns := indexOf '/' input
-          let i := (optMin np ns).getD input.length
-          matchRawURL f pat' (input.drop i) (params ++ [input.take i])
+          matchRawURL f pat' (input.drop (varEnd pat' input)) (params ++ [input.take (varEnd pat' input)])
       else
         match input with
         | [] => none
